@@ -11,7 +11,6 @@ use vstd::prelude::*;
 use std::alloc::Allocator;
 use std::sync::Arc;
 use std::ops::Deref;
-use std::collections::HashSet;
 use vstd::std_specs::cmp::PartialEqSpec;
 verus! {
 
@@ -22,7 +21,7 @@ verus! {
 #[verifier::external_body] #[verifier::accept_recursive_types(T)] pub struct InFiled<T> { _p: std::marker::PhantomData<T> }
 #[verifier::external_body] pub struct SmolStr { _p: () }
 #[verifier::external_body] pub struct TextRange { _p: () }
-#[verifier::external_body] pub struct FileId { _p: () }
+#[verifier::external_body] #[derive(Clone, Copy)] pub struct FileId { _p: () }
 #[verifier::external_body] pub struct LuaSignatureId { _p: () }
 /// LuaTypeDeclId { id: ArcIntern<LuaTypeIdentifier> }, derives PartialEq/Eq/Hash: an abstract identifier; derived equality of an
 /// interned identifier is identity of the abstract value
@@ -100,26 +99,108 @@ impl<'db> TypeCheckContext<'db> {
     //@@ TypeCheckContext::new
 }
 
+//@@include c16_laws/eqspec.rs
 //@@include c16_laws/spec.rs
 
 // ====================================================================================================================
 // 4. shims of callees (weakest contracts)
 // ====================================================================================================================
-pub uninterp spec fn sp_into_vec(u: LuaUnionType) -> Seq<LuaType>;
 pub uninterp spec fn sp_to_union(m: LuaMultiLineUnion) -> LuaType;
-impl LuaUnionType {
-    /// the member list of a union (real text proved against this name in section 7, where `into_vec` is extracted: here only the name)
-    #[verifier::external_body]
-    pub fn into_vec(&self) -> (r: Vec<LuaType>) ensures r@ == sp_into_vec(*self) { unimplemented!() }
-}
 impl LuaMultiLineUnion {
     #[verifier::external_body]
     pub fn to_union(&self) -> (r: LuaType) ensures r == sp_to_union(*self) { unimplemented!() }
 }
-/// escape_type reads the type index / module index: its result is an uninterpreted function of (db, type)
-pub uninterp spec fn sp_escape(db: &DbIndex, t: LuaType) -> Option<LuaType>;
+// ---- what escape_type / the sub-type walk read from the db: opaque index types, uninterpreted lookups ----------------------------
+#[verifier::external_body] pub struct LuaTypeIndex { _p: () }
+#[verifier::external_body] pub struct LuaModuleIndex { _p: () }
+#[verifier::external_body] pub struct TypeSubstitutor { _p: () }
+//@@ ModuleInfo
+pub uninterp spec fn sp_type_index(db: &DbIndex) -> LuaTypeIndex;
+pub uninterp spec fn sp_module_index(db: &DbIndex) -> LuaModuleIndex;
+pub uninterp spec fn sp_type_decl(ix: LuaTypeIndex, id: LuaTypeDeclId) -> Option<LuaTypeDecl>;
+pub uninterp spec fn sp_decl_is_alias(d: LuaTypeDecl) -> bool;
+pub uninterp spec fn sp_decl_alias_origin(d: LuaTypeDecl, db: &DbIndex) -> Option<LuaType>;
+pub uninterp spec fn sp_module(ix: LuaModuleIndex, f: FileId) -> Option<ModuleInfo>;
+pub uninterp spec fn sp_generic_contain_tpl(g: LuaGenericType) -> bool;
+pub uninterp spec fn sp_type_contain_tpl(t: LuaType) -> bool;
+pub uninterp spec fn sp_call_kind(c: LuaAliasCallType) -> LuaAliasCallKind;
+pub uninterp spec fn sp_generic_alias_origin(db: &DbIndex, g: LuaGenericType) -> Option<LuaType>;
+pub uninterp spec fn sp_instantiate(db: &DbIndex, t: LuaType) -> LuaType;
+/// result of `generic_tpl_constraint_type(typ).cloned()` (a closure compares the constraint with the type itself)
+pub uninterp spec fn sp_tpl_escape(t: LuaType) -> Option<LuaType>;
+impl DbIndex {
+    #[verifier::external_body] pub fn get_type_index(&self) -> (r: &LuaTypeIndex) ensures *r == sp_type_index(self) { unimplemented!() }
+    #[verifier::external_body] pub fn get_module_index(&self) -> (r: &LuaModuleIndex) ensures *r == sp_module_index(self) { unimplemented!() }
+}
+impl LuaTypeIndex {
+    #[verifier::external_body] pub fn get_type_decl(&self, decl_id: &LuaTypeDeclId) -> (r: Option<&LuaTypeDecl>)
+        ensures match r { Some(d) => sp_type_decl(*self, *decl_id) == Some(*d), None => sp_type_decl(*self, *decl_id) is None } { unimplemented!() }
+}
+impl LuaModuleIndex {
+    #[verifier::external_body] pub fn get_module(&self, file_id: FileId) -> (r: Option<&ModuleInfo>)
+        ensures match r { Some(m) => sp_module(*self, file_id) == Some(*m), None => sp_module(*self, file_id) is None } { unimplemented!() }
+}
+impl LuaTypeDecl {
+    #[verifier::external_body] pub fn is_alias(&self) -> (r: bool) ensures r == sp_decl_is_alias(*self) { unimplemented!() }
+    /// only the call shape `get_alias_origin(db, None)` occurs in the extracted text
+    #[verifier::external_body] pub fn get_alias_origin(&self, db: &DbIndex, substitutor: Option<&TypeSubstitutor>) -> (r: Option<LuaType>)
+        ensures substitutor is None ==> r == sp_decl_alias_origin(*self, db) { unimplemented!() }
+}
+impl TypeSubstitutor { #[verifier::external_body] pub fn new() -> (r: Self) { unimplemented!() } }
+impl LuaGenericType {
+    #[verifier::external_body] pub fn contain_tpl(&self) -> (r: bool) ensures r == sp_generic_contain_tpl(*self) { unimplemented!() }
+}
+impl LuaAliasCallType {
+    #[verifier::external_body] pub fn get_call_kind(&self) -> (r: LuaAliasCallKind) ensures r == sp_call_kind(*self) { unimplemented!() }
+}
+impl LuaType {
+    #[verifier::external_body] pub fn contain_tpl(&self) -> (r: bool) ensures r == sp_type_contain_tpl(*self) { unimplemented!() }
+}
 #[verifier::external_body]
-pub fn escape_type(db: &DbIndex, typ: &LuaType) -> (r: Option<LuaType>) ensures r == sp_escape(db, *typ) { unimplemented!() }
+pub fn instantiate_generic_alias_origin(db: &DbIndex, generic: &LuaGenericType) -> (r: Option<LuaType>) ensures r == sp_generic_alias_origin(db, *generic) { unimplemented!() }
+#[verifier::external_body]
+pub fn instantiate_type_generic(db: &DbIndex, ty: &LuaType, substitutor: &TypeSubstitutor) -> (r: LuaType) ensures r == sp_instantiate(db, *ty) { unimplemented!() }
+/// std doc of Option::filter: "Returns None if the option is None, otherwise calls predicate with the wrapped value and returns:
+/// Some(t) if predicate returns true (where t is the wrapped value), and None if predicate returns false."
+pub assume_specification<T, P: FnOnce(&T) -> bool>[Option::<T>::filter](o: Option<T>, p: P) -> (r: Option<T>)
+    requires o matches Some(t) ==> call_requires(p, (&t,)),
+    ensures match o { None => r is None, Some(t) => (r == Some(t) && call_ensures(p, (&t,), true)) || (r is None && call_ensures(p, (&t,), false)) };
+
+/// `A != *B` on LuaType in escape_type's `Call` arm: the very expression, result left uninterpreted (rule c16-type-ne)
+pub uninterp spec fn sp_type_ne(a: LuaType, b: LuaType) -> bool;
+#[verifier::external_body]
+pub fn vx_type_ne(a: &LuaType, b: &LuaType) -> (r: bool) ensures r == sp_type_ne(*a, *b) { *a != *b }
+
+/// what escape_type returns, as a function of (db, type) — the real text is proved against it
+pub open spec fn sp_escape(db: &DbIndex, t: LuaType) -> Option<LuaType> {
+    match t {
+        LuaType::TplRef(_) => sp_tpl_escape(t),
+        LuaType::Generic(g) => if !sp_generic_contain_tpl(*g) { sp_generic_alias_origin(db, *g) } else { None },
+        LuaType::Ref(id) => match sp_type_decl(sp_type_index(db), id) {
+            Some(d) => if sp_decl_is_alias(d) { sp_decl_alias_origin(d, db) } else { None },
+            None => None,
+        },
+        LuaType::Call(c) => if (sp_call_kind(*c) is Index || sp_call_kind(*c) is RawGet) && !sp_type_contain_tpl(t)
+                && sp_type_ne(sp_instantiate(db, t), t) { Some(sp_instantiate(db, t)) } else { None },
+        LuaType::Instance(i) => Some(i.base),
+        LuaType::MultiLineUnion(m) => Some(sp_to_union(*m)),
+        LuaType::TypeGuard(_) => Some(LuaType::Boolean),
+        LuaType::ModuleRef(f) => match sp_module(sp_module_index(db), f) { Some(m) => m.export_type, None => None },
+        _ => None,
+    }
+}
+/// the variants whose expected-side occurrence is never replaced by another type
+pub open spec fn never_escapes(t: LuaType) -> bool {
+    !(t is TplRef || t is Generic || t is Ref || t is Call || t is Instance || t is MultiLineUnion || t is TypeGuard || t is ModuleRef)
+}
+//@@ generic_tpl_constraint_type
+/// rule c16-tpl-escape: the body is the replaced expression. Trusted: the value is a function of the argument (pure code: it names it
+/// sp_tpl_escape); the second clause is what generic_tpl_constraint_type's proved contract + Option::cloned give.
+#[verifier::external_body]
+pub fn vx_tpl_escape(typ: &LuaType) -> (r: Option<LuaType>)
+    ensures r == sp_tpl_escape(*typ), r matches Some(o) ==> (typ matches LuaType::TplRef(tpl) && tpl.param.constraint == Some(o))
+{ generic_tpl_constraint_type(typ).cloned() }
+//@@ escape_type
 
 // branch checkers: verdict unconstrained; frame: the `db` reference and the two configuration fields are not written
 // (`db` is a shared reference; `detail`/`level` are never assigned outside TypeCheckContext::new — scanned)
@@ -168,6 +249,8 @@ pub fn check_call_type_compact(context: &mut TypeCheckContext, c: &LuaAliasCallT
 //@@ check_type_compact
 
 //@@include c16_laws/laws.rs
+
+//@@include c16_laws/union.rs
 
 } // verus!
 fn main() {}
